@@ -41,6 +41,10 @@ func configs(tier string) []config {
 			for _, bs := range []int{0, 4096} {
 				cs = append(cs, config{encdrv.K1huge, codec, bs, 4})
 			}
+			// block sizes above 1 MiB: nothing may be emitted before the configured size is reached
+			for _, bs := range []int{1<<20 + 1, 3 << 20} {
+				cs = append(cs, config{encdrv.K1huge, codec, bs, 3})
+			}
 		}
 	}
 	return cs
@@ -331,6 +335,119 @@ func runRefused(c *fw.Ctx, cf config) {
 	c.Sample(map[string]interface{}{"kind": "refused first write of a flush, flush retried", "type": cf.k.Name, "codec": cf.codec, "blocksize": cf.bs, "histories_with_a_refused_flush": n})
 }
 
+// ---- two encoders alive at once: encoder A's writer, in the middle of one of A's writes, drives encoder B (same
+// codec, own destination) through an encode that emits a block. Independent encoders share nothing: both outputs
+// must be what their own histories say.
+
+type hookWriter struct {
+	bytes.Buffer
+	n    int
+	at   int
+	hook func()
+}
+
+func (w *hookWriter) Write(p []byte) (int, error) {
+	if w.n == w.at && w.hook != nil {
+		h := w.hook
+		w.hook = nil
+		h()
+	}
+	w.n++
+	return w.Buffer.Write(p)
+}
+
+func runInterleaved(c *fw.Ctx, codec string) {
+	k := encdrv.K1
+	hA := []int{1, 2, 3, 1, 3} // encode(10B) encode(41B) flush encode(10B) flush  (block size 2^20: blocks at the flushes)
+	var n int64
+	// learn the number of writes of A's history
+	var probe hookWriter
+	probe.at = -1
+	if e, err := encdrv.New(k, &probe, codec, 1<<20); err == nil {
+		for _, op := range hA {
+			if k.IsFlush(op) {
+				e.Flush()
+			} else {
+				e.Encode(op)
+			}
+		}
+	}
+	for at := 0; at < probe.n; at++ {
+		for _, bOps := range [][]int{{2}, {1, 2}, {2, 3, 1}} {
+			n++
+			c.Eval(1)
+			desc := fmt.Sprintf("encoder A (%s, history %s) and encoder B (history %s, block size 0) — B runs inside A's write #%d", codec, encdrv.HistString(k, hA), encdrv.HistString(k, bOps), at)
+			locus := "two-encoders|" + codec
+			det := map[string]interface{}{"codec": codec, "at_write": at, "b_history": encdrv.HistString(k, bOps)}
+			c.Begin(locus, desc)
+			c.Nontrivial(desc)
+			c.Guard(locus, desc, det, func() {
+				var wa hookWriter
+				var wb bytes.Buffer
+				wa.at = at
+				ea, err := encdrv.New(k, &wa, codec, 1<<20)
+				if err != nil {
+					c.Violation("ctor-error|"+locus, err.Error(), det)
+					return
+				}
+				eb, err := encdrv.New(k, &wb, codec, 0)
+				if err != nil {
+					c.Violation("ctor-error|"+locus, err.Error(), det)
+					return
+				}
+				mb := &encdrv.Model{K: k, BlockSize: 0}
+				var berr error
+				wa.hook = func() {
+					for _, op := range bOps {
+						var err error
+						if k.IsFlush(op) {
+							err = eb.Flush()
+						} else {
+							err = eb.Encode(op)
+						}
+						mb.Step(op)
+						if err != nil && berr == nil {
+							berr = err
+						}
+					}
+				}
+				// the header write is write 0: re-arm the counter so that `at` counts all of A's writes
+				ma := &encdrv.Model{K: k, BlockSize: 1 << 20}
+				for i, op := range hA {
+					var err error
+					if k.IsFlush(op) {
+						err = ea.Flush()
+					} else {
+						err = ea.Encode(op)
+					}
+					ma.Step(op)
+					if err != nil {
+						c.Violation("spurious-error|"+locus, fmt.Sprintf("A's call %d returned %v — %s", i, err, desc), det)
+						return
+					}
+				}
+				if berr != nil {
+					c.Violation("spurious-error|"+locus, fmt.Sprintf("B returned %v — %s", berr, desc), det)
+					return
+				}
+				if sig, msg := ma.CheckOutput(wa.Bytes(), codec); sig != "" {
+					c.Violation(sig+"|"+locus+"|encoder-A", "encoder A: "+msg+" — "+desc, det)
+					return
+				}
+				if wa.hook == nil { // B really ran
+					if sig, msg := mb.CheckOutput(wb.Bytes(), codec); sig != "" {
+						c.Violation(sig+"|"+locus+"|encoder-B", "encoder B: "+msg+" — "+desc, det)
+					}
+				}
+			})
+		}
+	}
+	c.Count("states", n)
+	c.Count("transitions", n*int64(len(hA)))
+	c.Count("traces_validated_against_impl", n*int64(len(hA)))
+	c.Sample(map[string]interface{}{"kind": "two encoders, B driven from inside A's writes", "codec": codec, "interleavings": n})
+}
+
 func lastOr(f [][]int) []int {
 	if len(f) == 0 {
 		return nil
@@ -347,17 +464,22 @@ func init() {
 			if tier == "thorough" {
 				d1, d0 = 8, 12
 			}
-			return fmt.Sprintf("explicit-state BFS over call histories of the real Encoder[T]: alphabet {encode(1B), encode(10B), encode(41B), flush} to depth %d for struct{S string} with block sizes {0,1,10,11,20,2^20}, the same with records of 102/9002/20003 bytes (block lengths in the 2- and 3-byte varint ranges) and with a 1.3 MB record between small ones (depth 4), and {encode(0B), flush} to depth %d for struct{} with block sizes {0,1,2^20}, × {null,deflate,snappy}; plus a sweep of every record size 0..1500 bytes (9000 thorough) and 2^k±4 up to 128 KiB of incompressible text (so the compressed block length sweeps the range as well) as two single-record blocks; plus every history of depth<=4 (5) over block sizes {0,10,2^20} in which, for every explicit flush with records pending, the writer refuses that flush's first write once (nothing consumed) and the flush is retried; successor = replay of the shortest history on a fresh encoder + one call; states deduplicated on (pending records, sync-normalised output hash); after every call the whole output is parsed by the reference container parser and compared with the lock-step model {pending []record}; distinct_nontrivial counts distinct (config, history) pairs checked", d1, d0)
+			return fmt.Sprintf("explicit-state BFS over call histories of the real Encoder[T]: alphabet {encode(1B), encode(10B), encode(41B), flush} to depth %d for struct{S string} with block sizes {0,1,10,11,20,2^20}, the same with records of 102/9002/20003 bytes (block lengths in the 2- and 3-byte varint ranges) and with a 1.3 MB record between small ones (depth 4), and {encode(0B), flush} to depth %d for struct{} with block sizes {0,1,2^20}, × {null,deflate,snappy}; plus a sweep of every record size 0..1500 bytes (9000 thorough) and 2^k±4 up to 128 KiB of incompressible text (so the compressed block length sweeps the range as well) as two single-record blocks; plus every history of depth<=4 (5) over block sizes {0,10,2^20} in which, for every explicit flush with records pending, the writer refuses that flush's first write once (nothing consumed) and the flush is retried; plus two independent encoders of one codec alive at once, B driven to emit blocks from inside each of A's writes in turn; plus block sizes just above and well above 1 MiB with a 1.3 MB record; successor = replay of the shortest history on a fresh encoder + one call; states deduplicated on (pending records, sync-normalised output hash); after every call the whole output is parsed by the reference container parser and compared with the lock-step model {pending []record}; distinct_nontrivial counts distinct (config, history) pairs checked", d1, d0)
 		},
 		Assumptions: []string{
 			"records are drawn from a 3-size alphabet (1, 10, 41 encoded bytes) plus the zero-byte record; larger records and other block sizes are not explored",
 			"canonical state = (pending record list, hash of all output with the random sync marker normalised): Encoder holds no other mutable state that influences the future (count, wb, compressor scratch overwritten per block)",
 			"reference container parser / decompressors (stdlib flate, golang/snappy) are trusted",
 		},
-		NumCases: func(tier string) int { return len(configs(tier)) + 3 + 9 },
+		NumCases: func(tier string) int { return len(configs(tier)) + 3 + 9 + 3 },
 		RunCase: func(c *fw.Ctx, idx int) {
 			n := len(configs(c.Tier))
 			codecs := []string{"null", "deflate", "snappy"}
+			if idx >= n+3+9 {
+				c.Begin("c09", "two encoders "+codecs[idx-n-12])
+				runInterleaved(c, codecs[idx-n-12])
+				return
+			}
 			if idx >= n+3 {
 				j := idx - n - 3
 				d := 4
